@@ -480,7 +480,7 @@ def _oracle_cf(case, res):
 
 
 KEY_HZ = 'C12/date2num/hour-only-UTC-reference'
-HOUR_ONLY_Z = re.compile(r'^\S+ \d+ ?(UTC|Z)$')
+HOUR_ONLY_Z = re.compile(r'^\S+ \d+ ?(UTC|Z)?$')
 
 
 def classify(case, failure, model_out):
